@@ -94,7 +94,7 @@ func c20SelectGuards(ins ssa.Instruction) (out []struct {
 // C20.eval
 
 func c20Eval(r *fw.Run, p *fw.Program) {
-	ru := r.Rule("C20.eval", "Interp.Eval pushes one context per evaluation on the interrupt stack, runs gojq and the output writer under that context, and its iterator wrapper calls the pop function on iterator end AND on an error value on every path; no return after the push leaks the entry; Interp.Stop stops the stack, cli.Main defers it; the trigger function waits on OS.InterruptChan and the stop channel", 8)
+	ru := r.Rule("C20.eval", "Interp.Eval pushes one context per evaluation (derived from the context it was called with) on the interrupt stack, runs gojq and the output writer under that context, and its iterator wrapper calls the pop function on iterator end AND on an error value on every path; no return after the push leaks the entry; Interp.Stop stops the stack, cli.Main defers it; the trigger function returns only after a blocking select on OS.InterruptChan and the stop channel; a jq function that hands the iterator of a pushed evaluation to gojq lazily requires the iterator wrapper to tell the stack when the evaluation is suspended (else a dropped iterator leaves a dead entry on top)", 9)
 	eval := getFn(ru, p, "(*pkg/interp.Interp).Eval")
 	pushFn := getFn(ru, p, "(*internal/ctxstack.Stack).Push")
 	stopFn := getFn(ru, p, "(*internal/ctxstack.Stack).Stop")
@@ -116,6 +116,15 @@ func c20Eval(r *fw.Run, p *fw.Program) {
 	}
 	push := pushes[0]
 	ru.Check(c20FieldLoad(push.Common().Args[0], "interruptStack"), "Eval:push", p.Rel(push.Pos()), "i.interruptStack.Push(ctx)", "Push is not called on the interpreter's interrupt stack")
+	{
+		args := push.Common().Args
+		isParam := func(v ssa.Value) bool {
+			prm, ok := v.(*ssa.Parameter)
+			return ok && prm.Parent() == eval && c20IsContextType(prm.Type())
+		}
+		ru.Check(len(args) == 2 && c20CtxDerived(args[1], isParam), "Eval:push parent", p.Rel(push.Pos()), "Push(ctx) with Eval's own context parameter",
+			"the context pushed for the evaluation is not derived from the context Eval was called with: cancelling the enclosing evaluation (or the completion timeout) does not end this evaluation")
+	}
 	runCtx, cancel := extractOf(push, 0), extractOf(push, 1)
 	if runCtx == nil || cancel == nil {
 		ru.Fail("Eval:push results", p.Rel(push.Pos()), "the context or the pop function returned by Push is discarded")
@@ -222,6 +231,7 @@ func c20Eval(r *fw.Run, p *fw.Program) {
 			continue
 		}
 		c20EvalWrapper(ru, p, wrapper, key, runCall, cancel)
+		c20EvalSuspend(ru, p, eval, wrapper, push)
 	}
 	if nret == 0 {
 		ru.Fail("Eval:return after push", p.Rel(push.Pos()), "no return after the push")
@@ -335,6 +345,8 @@ func c20Eval(r *fw.Run, p *fw.Program) {
 				msg = "the trigger function does not receive from OS.InterruptChan(): interrupts never reach the stack"
 			case !haveStop || bare:
 				msg = "the trigger function does not also wait on the stop channel in one select: the trigger goroutine cannot be stopped"
+			default:
+				msg = c20TriggerBlocks(trig)
 			}
 			ru.Check(msg == "", "interp.New:trigger", p.Rel(trig.Pos()), "select on stop channel and OS.InterruptChan()", msg)
 		}
@@ -540,7 +552,7 @@ func c20Writer(r *fw.Run, p *fw.Program) {
 // C20.ctxrs
 
 func c20CtxRS(r *fw.Run, p *fw.Program) {
-	ru := r.Rule("C20.ctxrs", "ctxreadseeker: callWait hands the function to the reader goroutine and waits for its completion only inside selects that also receive from ctx.Done() (returning ctx.Err()); the underlying reader is only touched by the reader goroutine (directly or through functions handed to callWait); interp opens files with the evaluation's context", 11)
+	ru := r.Rule("C20.ctxrs", "ctxreadseeker: callWait hands the function to the reader goroutine and waits for its completion only inside selects that also receive from ctx.Done() (returning ctx.Err()); the underlying reader is only touched by the reader goroutine (directly or through functions handed to callWait); interp opens files with the evaluation's context and New binds exactly that context; on the cancel path Read/Seek/Close do not touch variables the abandoned call still writes", 14)
 	cw := getFn(ru, p, "(*internal/ctxreadseeker.Reader).callWait")
 	if cw == nil {
 		return
@@ -745,6 +757,8 @@ func c20CtxRS(r *fw.Run, p *fw.Program) {
 	if nw == nil {
 		return
 	}
+	c20CtxRSBind(ru, p, nw, cw, isDone)
+	c20CtxRSShared(ru, p, cw)
 	n := 0
 	for _, fn := range p.FqFunctions() {
 		if fw.FnPkgPath(fn) == pkg {
@@ -788,7 +802,7 @@ func c20FieldLoadAny(v ssa.Value) bool {
 // C20.sig
 
 func c20Sig(r *fw.Run, p *fw.Program) {
-	ru := r.Rule("C20.sig", "signal bridge in cli.newStandardOS: os.Interrupt is delivered to a buffered channel; the forwarding goroutine selects on it and on the close channel, forwards with a NON-blocking send to a buffered interrupt channel, returns only on close; InterruptChan() hands out that very channel; Close closes the close channel", 6)
+	ru := r.Rule("C20.sig", "signal bridge in cli.newStandardOS: os.Interrupt is delivered to a buffered channel; the forwarding goroutine selects on it and on the close channel, forwards with a NON-blocking send to a buffered interrupt channel, (in the case that received the signal), returns only on close; InterruptChan() hands out that very channel; Close closes the close channel", 7)
 	nso := getFn(ru, p, "pkg/cli.newStandardOS")
 	if nso == nil {
 		return
@@ -914,7 +928,8 @@ func c20Sig(r *fw.Run, p *fw.Program) {
 	closeIdx := -1
 	forwarded := false
 	nsend := 0
-	fw.EachInstr(g, func(ins ssa.Instruction) {
+	var fwdSel *ssa.Select
+	c20EachInstrNest(g, func(ins ssa.Instruction) {
 		switch x := ins.(type) {
 		case *ssa.Send:
 			nsend++
@@ -930,11 +945,12 @@ func c20Sig(r *fw.Run, p *fw.Program) {
 				}
 				if s.Dir == types.SendOnly && isChan(s.Chan, intChan) {
 					forwarded = true
+					fwdSel = x
 					ru.Check(!x.Blocking, "bridge:forward non-blocking", p.Rel(x.Pos()), "select { case interruptChan <- v: default: }",
 						"the forward to the interrupt channel has no default case: with an interrupt already pending the bridge blocks")
 				}
 			}
-			if hasSig && ci >= 0 && x.Blocking {
+			if hasSig && ci >= 0 && x.Blocking && x.Parent() == g {
 				loopSel, closeIdx = x, ci
 			}
 		}
@@ -942,6 +958,19 @@ func c20Sig(r *fw.Run, p *fw.Program) {
 	ru.Check(loopSel != nil, "bridge:select", p.Rel(g.Pos()), "select on signal channel and close channel", "the bridge goroutine does not select on both the signal channel and the close channel")
 	if !forwarded {
 		ru.Fail("bridge:forward non-blocking", p.Rel(g.Pos()), "the bridge goroutine never forwards to the channel InterruptChan() returns")
+	} else if loopSel != nil {
+		// the forward is what the signal case of the loop select does
+		site := c20SiteIn(g, fwdSel)
+		ok := false
+		if site != nil {
+			for _, sg := range c20SelectGuards(site) {
+				if sg.Sel == loopSel && sg.Sel.States[sg.Idx].Dir == types.RecvOnly && isChan(sg.Sel.States[sg.Idx].Chan, sigChan) {
+					ok = true
+				}
+			}
+		}
+		ru.Check(ok, "bridge:forwards each signal", p.Rel(fwdSel.Pos()), "forward runs in the case that received the signal",
+			"the forward to the interrupt channel is not executed in the select case that received from the signal channel: ^C is received but never reaches the interpreter")
 	}
 	nret := 0
 	for _, ret := range returnsOf(g) {
@@ -966,7 +995,7 @@ func c20Sig(r *fw.Run, p *fw.Program) {
 // C20.repl
 
 func c20Repl(r *fw.Run, p *fw.Program) {
-	ru := r.Rule("C20.repl", "REPL survives an interrupt: _repl_on_error yields empty for a context-canceled error (does not exit fq), _is_context_canceled_error compares with the text of context.Canceled, the REPL loop's catch yields empty for \"interrupt\", which is the value the Go readline bridge raises for ErrInterrupt", 4)
+	ru := r.Rule("C20.repl", "REPL survives an interrupt: _repl_on_error yields empty for a context-canceled error (does not exit fq), _is_context_canceled_error compares with the text of context.Canceled, the REPL loop's catch yields empty for \"interrupt\", which is the value interp raises exactly for ErrInterrupt, which cli returns exactly for readline.ErrInterrupt; eval/4 hands {error: .} to on_error and the REPL installs _repl_on_error there", 8)
 	jq, err := fw.LoadJQ(p.Repo)
 	if err != nil {
 		ru.Undecided("anchor:jq", "", "cannot load bundled jq sources: "+err.Error())
@@ -993,18 +1022,11 @@ func c20Repl(r *fw.Run, p *fw.Program) {
 	if d := jq.Def("pkg/interp/repl.jq", "_repl_on_error", 0); d == nil {
 		ru.Undecided("anchor:_repl_on_error/0", "", "definition not found in repl.jq")
 	} else {
-		ok := false
-		fw.WalkJQ(d.Def.Body, func(x any) bool {
-			if ifn, isIf := x.(*gojq.If); isIf && fw.JQIsCall(ifn.Then, "empty", 0) != nil {
-				// the condition is a pipeline ending in the test itself (not its negation)
-				if pl := fw.JQPipeline(ifn.Cond); len(pl) > 0 && fw.JQIsCall(pl[len(pl)-1], "_is_context_canceled_error", 0) != nil {
-					ok = true
-				}
-			}
-			return true
-		}, false)
-		ru.Check(ok, "_repl_on_error/0", d.File.Rel, "if .error | _is_context_canceled_error then empty", "an interrupted evaluation is not ignored by the REPL error handler: ^C during an evaluation exits fq instead of returning to the prompt")
+		ok, why := c20ReplOnError(d.Def.Body)
+		ru.Check(ok, "_repl_on_error/0", d.File.Rel, "if .error | _is_context_canceled_error then empty", why)
 	}
+	c20ReplWiring(ru, jq)
+	c20ReplGo(ru, p)
 	// _repl_loop catch
 	if d := jq.Def("pkg/interp/repl.jq", "_repl", 1); d == nil {
 		ru.Undecided("anchor:_repl/1", "", "definition not found in repl.jq")
@@ -1022,11 +1044,11 @@ func c20Repl(r *fw.Run, p *fw.Program) {
 				if !isIf {
 					return true
 				}
-				if hasStr(ifn.Cond, "interrupt") && fw.JQIsCall(ifn.Then, "empty", 0) != nil {
+				if hasStr(ifn.Cond, "interrupt") && ifn.Cond.Op == gojq.OpEq && fw.JQIsCall(ifn.Then, "empty", 0) != nil {
 					ok = true
 				}
 				for _, e := range ifn.Elif {
-					if hasStr(e.Cond, "interrupt") && fw.JQIsCall(e.Then, "empty", 0) != nil {
+					if hasStr(e.Cond, "interrupt") && e.Cond.Op == gojq.OpEq && fw.JQIsCall(e.Then, "empty", 0) != nil {
 						ok = true
 					}
 				}
